@@ -122,6 +122,7 @@ func propC11(rec *stats.Rec, sc *scratch, exclude map[string]bool) func(t *rapid
 				_ = os.WriteFile(filepath.Join(d, rapid.SampledFrom(names).Draw(t, "initName"+filepath.Base(d))), data, 0o644)
 			}
 		}
+		waitForInotify()
 		cache, _ := cdi.NewCache(cdi.WithSpecDirs(dirs...), cdi.WithAutoRefresh(true))
 		defer cache.Configure(cdi.WithAutoRefresh(false))
 		undecidedIfNoInotify(t, cache)
